@@ -22,8 +22,9 @@ Ups(r) == CASE r = "none" -> 10000 [] r = "d3" -> 1000 [] r = "d6" -> 10000 [] r
 Time(i) == 8 * 4000 + 3 * i + 1          \* capture time of packet i in eighths of a second
 
 VARIABLES fmt, le, resol, tsoff, extras, pos, divisor, offset, yielded, keys,
-          two, resol2, tsoff2, ifaces      \* a second interface (every second packet is captured on it) and the reader's interface table
-vars == <<fmt, le, resol, tsoff, extras, pos, divisor, offset, yielded, keys, two, resol2, tsoff2, ifaces>>
+          two, resol2, tsoff2, ifaces,     \* a second interface (every second packet is captured on it) and the reader's interface table
+          dsbAt                            \* where the decryption secrets block stands: "pre" (before the first interface description), "start", "mid", "end"
+vars == <<fmt, le, resol, tsoff, extras, pos, divisor, offset, yielded, keys, two, resol2, tsoff2, ifaces, dsbAt>>
 
 \* the file: sequence of blocks [kind, raw (timestamp units), id]
 OnSecond(i) == two /\ i % 2 = 0
@@ -31,10 +32,12 @@ Raw(i) == IF OnSecond(i) THEN (Time(i) - 8 * tsoff2) * (Ups(resol2) \div 8)
           ELSE (Time(i) - 8 * tsoff) * (Ups(resol) \div 8)       \* what the writer stores: (time - offset) in interface units
 Ex(k) == IF k \in extras THEN <<[kind |-> "OTHER", raw |-> 0, id |-> 0, ifc |-> 0]>> ELSE <<>>
 RECURSIVE PktBlocks(_)
-PktBlocks(i) == IF i > NPkts THEN <<>> ELSE <<[kind |-> "EPB", raw |-> Raw(i), id |-> i, ifc |-> IF OnSecond(i) THEN 2 ELSE 1]>> \o Ex(i + 1) \o PktBlocks(i + 1)
+D(where) == IF dsbAt = where THEN <<[kind |-> "DSB", raw |-> 0, id |-> 0, ifc |-> 0]>> ELSE <<>>
+PktBlocks(i) == IF i > NPkts THEN <<>> ELSE <<[kind |-> "EPB", raw |-> Raw(i), id |-> i, ifc |-> IF OnSecond(i) THEN 2 ELSE 1]>>
+                                            \o (IF i = (NPkts + 1) \div 2 THEN D("mid") ELSE <<>>) \o Ex(i + 1) \o PktBlocks(i + 1)
 Idb(n) == [kind |-> "IDB", raw |-> 0, id |-> n, ifc |-> n]
-Blocks == Ex(0) \o <<Idb(1)>> \o (IF two THEN <<Idb(2)>> ELSE <<>>)
-          \o <<[kind |-> "DSB", raw |-> 0, id |-> 0, ifc |-> 0]>> \o Ex(1) \o PktBlocks(1)
+Blocks == Ex(0) \o D("pre") \o <<Idb(1)>> \o (IF two THEN <<Idb(2)>> ELSE <<>>)
+          \o D("start") \o Ex(1) \o PktBlocks(1) \o D("end")
 
 Init == /\ fmt \in {"pcap", "pcapng"} /\ le \in BOOLEAN
         /\ resol \in (IF fmt = "pcap" THEN {"d6"} ELSE Resols)
@@ -42,12 +45,13 @@ Init == /\ fmt \in {"pcap", "pcapng"} /\ le \in BOOLEAN
         /\ extras \in (IF fmt = "pcap" THEN {{}} ELSE SUBSET ExtraKinds)
         /\ two \in (IF fmt = "pcap" THEN {FALSE} ELSE BOOLEAN)
         /\ resol2 \in (IF two THEN Resols ELSE {"none"}) /\ tsoff2 \in (IF two THEN Offsets ELSE {0})
+        /\ dsbAt \in {"pre", "start", "mid", "end"}
         /\ pos = 0 /\ divisor = 0 /\ offset = 0 /\ yielded = <<>> /\ keys = 0 /\ ifaces = <<>>
 
 \* Reader.__init__: byte order from the byte-order magic, divisor / offset from the interface description options
 Open == /\ pos = 0
         /\ divisor' = Ups(resol) /\ offset' = tsoff
-        /\ pos' = 1 /\ UNCHANGED <<fmt, le, resol, tsoff, extras, yielded, keys, two, resol2, tsoff2, ifaces>>
+        /\ pos' = 1 /\ UNCHANGED <<fmt, le, resol, tsoff, extras, yielded, keys, two, resol2, tsoff2, ifaces, dsbAt>>
 \* Reader.__iter__: one block per step
 Step == /\ pos >= 1 /\ pos <= Len(Blocks)
         /\ LET b == Blocks[pos] IN
@@ -58,12 +62,14 @@ Step == /\ pos >= 1 /\ pos <= Len(Blocks)
                                   /\ UNCHANGED <<keys, ifaces>>
              [] b.kind = "DSB" -> /\ keys' = (IF fmt = "pcapng" THEN keys + 1 ELSE keys) /\ UNCHANGED <<yielded, ifaces>>
              [] OTHER -> UNCHANGED <<yielded, keys, ifaces>>
-        /\ pos' = pos + 1 /\ UNCHANGED <<fmt, le, resol, tsoff, extras, divisor, offset, two, resol2, tsoff2>>
+        /\ pos' = pos + 1 /\ UNCHANGED <<fmt, le, resol, tsoff, extras, divisor, offset, two, resol2, tsoff2, dsbAt>>
 Next == Open \/ Step
 Spec == Init /\ [][Next]_vars
 
 Done == pos = Len(Blocks) + 1
 \* C12: whatever the container, the reader yields the same (time, frame) sequence
 YieldedIndependentOfContainer == Done => yielded = [i \in 1..NPkts |-> [t8 |-> Time(i), id |-> i]]
+\* the secrets block reaches the key list wherever it stands (a legacy pcap has none)
+KeysYielded == Done => keys = (IF fmt = "pcapng" THEN 1 ELSE 0)
 YieldedIsPrefix == \A i \in 1..Len(yielded) : yielded[i] = [t8 |-> Time(i), id |-> i]
 =============================================================================
